@@ -380,6 +380,10 @@ def run(tier):
                       "releases are decided for node blocks (allocation seam) and the driver's value objects; name buffers "
                       "of long identifiers are observed by ASan only",
                       "the exhaustive model is bounded (see MC cfg); beyond it coverage is by the seeded histories"]
+    # extension X14: the remaining tree operations and the users of node trees (checks/x14_tree.py, docs/X14_tree.md)
+    import x14_tree
+    if x14_tree.enabled():
+        x14_tree.run_part(ck, tier)
     return ck.finish()
 
 
@@ -395,6 +399,9 @@ def replay_trace(beh, recs, path):
 def replay(path):
     d = json.load(open(path))
     det = d["detail"]
+    if det.get("x14"):
+        import x14_tree
+        return x14_tree.replay(det, path)
     beh = det.get("behaviour")
     if not beh:
         print(json.dumps(det, indent=1)[:4000])
